@@ -102,8 +102,9 @@ def main(run):
     if not thorough:
         tasks += go("StructAlphabet", 4, 1, bases, "AsmCore struct simulation (1 file, <= 4 stmts)", simulate=600, depth=5, seed=run.seed + 23)
     tasks += go("StructBigAlphabet", 3 if thorough else 2, 1, bases, "AsmCore struct, large repeat counts 17/33/40 (exhaustive)")
-    tasks += go("StructAlphabet", 2, 2, [512], "AsmCore struct, 2 files x 2 stmts with LinkIsConcatenation (" + ("exhaustive" if thorough else "simulation") + ")",
-                extra=("concat",), timeout=6000, simulate=None if thorough else 800, depth=None if thorough else 6, seed=run.seed + 2)
+    # (exhaustive it would be 2.7 million programs with the alphabet as it is after the seeding rounds)
+    tasks += go("StructAlphabet", 2, 2, [512], "AsmCore struct, 2 files x 2 stmts with LinkIsConcatenation (simulation)",
+                extra=("concat",), timeout=6000, simulate=40000 if thorough else 800, depth=6, seed=run.seed + 2)
     tasks += go("StructDirAlphabet", 2, 2, [512], "AsmCore struct, same-named inserted files in two directories and linked includable files (exhaustive)")
     if thorough:        # all 2-file programs of 3 statements would be 2.1 million: a simulation instead
         tasks += go("StructDirAlphabet", 3, 3, [512], "AsmCore struct, directories and linked includable files, simulation (<= 3 stmts x 3 files)",
